@@ -68,8 +68,23 @@ func prioRule(c *core.Ctx, global, ctor, typ string) {
 			for _, ins := range b.Instrs {
 				switch x := ins.(type) {
 				case *ssa.MapUpdate:
+					literal := false
 					if globalOf(x.Map) != global {
-						continue
+						// a map literal assigned to the table: the entries are written into the fresh map before it is stored
+						mk, isMk := x.Map.(*ssa.MakeMap)
+						if !isMk || mk.Referrers() == nil {
+							continue
+						}
+						for _, r := range *mk.Referrers() {
+							if st, isS := r.(*ssa.Store); isS && st.Val == ssa.Value(mk) {
+								if g, isG := st.Addr.(*ssa.Global); isG && g.Name() == global {
+									literal = true
+								}
+							}
+						}
+						if !literal {
+							continue
+						}
 					}
 					if fn.Name() != "init" && !strings.HasPrefix(fn.Name(), "init#") {
 						outside = append(outside, funcKey(fn))
@@ -92,7 +107,7 @@ func prioRule(c *core.Ctx, global, ctor, typ string) {
 							}
 						}
 					}
-					if !made {
+					if !made && !literal {
 						outside = append(outside, "an entry is written in "+funcKey(fn)+" before the table has been created (a nil map: the package panics when it is initialised)")
 					}
 					k, ok1 := constInt(x.Key)
